@@ -163,7 +163,8 @@ impl OutputFormat for TundraDraw {
         result.ice_mode = IceMode::Ice;
 
         let mut pos = Position::default();
-        let mut attr = TextAttribute::default();
+        // the writer starts from black on black (TextAttribute::from_u8(0, ..)); the only color in the palette is black = index 0
+        let mut attr = TextAttribute::from_u8(0, result.ice_mode);
 
         while o < data.len() {
             let mut cmd = data[o];
